@@ -3,6 +3,7 @@ import GomlVerif.Model.Closed
 import GomlVerif.Model.Sem
 import GomlVerif.Driver.DecSyntax
 import GomlVerif.Driver.EncSyntax
+import GomlVerif.Driver.InherentNames
 /-! driver for C07: input `(case (file fn…) (enums …) (structs …))` — the REAL Core file and the
 type definitions of `genv`; output the model's Mono program in the format of the real dump:
 `ok|panic|fuel <TAB> (mono (file …) (enums …) (structs …) (funcs …)) <TAB> message` -/
@@ -92,45 +93,6 @@ def closedLine (id : String) (P : Prog) : String :=
     | [] => none
     | ks => some (f.name ++ ":" ++ ",".intercalate ks ++ (if ks.contains "app" then ":under=" ++ appContext f else ""))
   if bad.isEmpty then s!"{id}\tclosed\t" else s!"{id}\topen\t{" ;; ".intercalate bad}"
-
-mutual
-/-- rename function references (driver-side helper for running Core under `Sem`) -/
-partial def mapVars (f : String → String) : Expr → Expr
-  | .var x t => .var (f x) t
-  | .prim p => .prim p
-  | .tag i t => .tag i t
-  | .constr c t args => .constr c t (args.map (mapVars f))
-  | .tuple t items => .tuple t (items.map (mapVars f))
-  | .array t items => .array t (items.map (mapVars f))
-  | .closure t ps b => .closure t ps (mapVars f b)
-  | .letE x v b => .letE x (mapVars f v) (mapVars f b)
-  | .matchE t s arms d => .matchE t (mapVars f s) (arms.map fun | .mk l b => .mk (mapVars f l) (mapVars f b)) (d.map (mapVars f))
-  | .ite c t e => .ite (mapVars f c) (mapVars f t) (mapVars f e)
-  | .while c b => .while (mapVars f c) (mapVars f b)
-  | .go e => .go (mapVars f e)
-  | .cget c i t e => .cget c i t (mapVars f e)
-  | .un op t e => .un op t (mapVars f e)
-  | .bin op t l r => .bin op t (mapVars f l) (mapVars f r)
-  | .call t g args => .call t (mapVars f g) (args.map (mapVars f))
-  | .toDyn tr ft t e => .toDyn tr ft t (mapVars f e)
-  | .dynCall tr m t r args => .dynCall tr m t (mapVars f r) (args.map (mapVars f))
-  | .traitCall tr m t r args => .traitCall tr m t (mapVars f r) (args.map (mapVars f))
-  | .proj i t e => .proj i t (mapVars f e)
-end
-
-/-- At Core level a method of a generic `impl[T] Bx[T]` is defined as `inherent#Bx#Bx[T]#get` and
-called as `inherent#Bx#Bx[int32]#get`; `Sem` looks functions up by name, so the call-site name is
-mapped to the one definition with that (base type, method) before the Core program is run. -/
-def resolveInherent (P : Prog) : Prog :=
-  let defined := P.fns.map (·.name)
-  let f (x : String) : String :=
-    if defined.contains x then x
-    else match parseInherent x with
-      | some (b, m) => match inherentIndex P.fns b m with
-        | some g => g.name
-        | none => x
-      | none => x
-  { P with fns := P.fns.map fun fn => { fn with body := mapVars f fn.body } }
 
 def escOut (s : String) : String :=
   s.foldl (fun acc c =>
